@@ -631,3 +631,180 @@ class VpdAtaInformation(FixedDecode):
 
 for _u in (VpdSupportedPages(), VpdSerial(), VpdDeviceIdentification(), VpdAtaInformation()):
     UNITS.append(register(_u))
+
+
+# ------------------------------------------------------------------------------------------------ PR IN READ FULL STATUS, TransportIDs
+
+ISCSI_NAMES = ["iqn.1993-08.org.debian:01:abc", "iqn.x", "iqn.2001-04.com.example:storage:diskarrays-sn-a8675309", "a", "ab", "abc", "abcd"]
+
+
+class TransportIdDecode(ListDecode):
+    name = "decode/TransportID"
+    bound_note = "every protocol kind the library names; binary port names symbolic; iSCSI names: 7 representative strings of lengths covering all padding residues, both formats"
+
+    def parser(self):
+        return cls_of("scsi_cdb_persistentreservein", "PersistentReserveInReadFullStatus").unmarshall_transport_id
+
+    def cases(self, tier):
+        out = [{"kind": k} for k in sorted(D.TRANSPORT_IDS)]
+        for i in range(len(ISCSI_NAMES)):
+            out.append({"kind": "iscsi", "name": i, "isid": None})
+            out.append({"kind": "iscsi", "name": i, "isid": "0123456789ab"})
+        return out
+
+    def case_id(self, case):
+        return ",".join("%s=%s" % kv for kv in sorted(case.items()))
+
+    def inputs(self, case):
+        if case["kind"] == "iscsi":
+            return {}
+        return field_inputs(D.TRANSPORT_IDS[case["kind"]], fixed={"protocol_id": D.TRANSPORT_PROTOCOL[case["kind"]], "tpid_format": 0})
+
+    def build(self, case, a):
+        if case["kind"] == "iscsi":
+            name = ISCSI_NAMES[case["name"]]
+            cells = D.iscsi_transport_id(name, case["isid"])
+            exp = {"tpid_format": 0 if case["isid"] is None else 1, "protocol_id": 5, "iscsi_name": name}
+            if case["isid"] is not None:
+                exp["iscsi_initiator_session_id"] = case["isid"]
+            return cells, exp
+        fmt = D.TRANSPORT_IDS[case["kind"]]
+        v = field_values(fmt, a, fixed={"protocol_id": D.TRANSPORT_PROTOCOL[case["kind"]], "tpid_format": 0})
+        return fmt.encode(v), v
+
+
+class PRInFullStatusDecode(ListDecode):
+    name = "decode/PRIn:ReadFullStatus"
+    bound_note = "0..3 full status descriptors with FC / SAS / iSCSI TransportIDs; numeric fields symbolic"
+
+    def parser(self):
+        return cls_of("scsi_cdb_persistentreservein", "PersistentReserveInReadFullStatus").unmarshall_datain
+
+    def cases(self, tier):
+        shapes = [[], ["fc"], ["sas"], ["iscsi"], ["fc", "iscsi"], ["sas", "rdma", "1394"]]
+        return [{"tids": s, "tail": t} for s in shapes for t in ("none", "unused-buffer-space")]
+
+    def case_id(self, case):
+        return "tids=%s,tail=%s" % ("+".join(case["tids"]) or "none", case["tail"])
+
+    def inputs(self, case):
+        d = {"pr_generation": U(32)}
+        for i, k in enumerate(case["tids"]):
+            d.update(field_inputs(D.PRIN_FULL_STATUS_DESCRIPTOR_HEAD, "d%d." % i))
+            if k != "iscsi":
+                d.update(field_inputs(D.TRANSPORT_IDS[k], "d%d.t." % i, fixed={"protocol_id": D.TRANSPORT_PROTOCOL[k], "tpid_format": 0}))
+        return self.tail_input(case, d)
+
+    def build(self, case, a):
+        body, items = [], []
+        for i, k in enumerate(case["tids"]):
+            hv = field_values(D.PRIN_FULL_STATUS_DESCRIPTOR_HEAD, a, "d%d." % i)
+            if k == "iscsi":
+                tcells = D.iscsi_transport_id(ISCSI_NAMES[0])
+                tv = {"tpid_format": 0, "protocol_id": 5, "iscsi_name": ISCSI_NAMES[0]}
+            else:
+                tv = field_values(D.TRANSPORT_IDS[k], a, "d%d.t." % i, fixed={"protocol_id": D.TRANSPORT_PROTOCOL[k], "tpid_format": 0})
+                tcells = D.TRANSPORT_IDS[k].encode(tv)
+            c = D.PRIN_FULL_STATUS_DESCRIPTOR_HEAD.encode(hv)
+            D.put_be(c, 20, 4, len(tcells))
+            body.append(c + tcells)
+            items.append(dict(hv, transport_id=tv))
+        cells = D.encode_list(8, D.N(4, 4), 8, body)
+        D.put_be(cells, 0, 4, a.pr_generation)
+        return cells, {"pr_generation": a.pr_generation, "full_status": items}
+
+
+# ------------------------------------------------------------------------------------------------ READ CD
+
+
+def _buf(cells):
+    cells = list(cells)
+    return V.SBytes(cells, False) if V.contains_sym(cells) else bytes(cells)
+
+
+class ReadCdDecode(ListDecode):
+    name = "decode/ReadCd"
+    bound_note = "transfer lengths 0..2, eleven representative (sector type, main channel, C2, sub-channel) layouts; every sector byte symbolic"
+    LAYOUTS = [
+        # est, mcsb (sync, subheader, header, user data, edc/ecc), c2ei, scsb
+        (1, 0x02, 0, 0), (1, 0x02, 1, 2), (2, 0x1F, 0, 0), (2, 0x02, 0, 0), (2, 0x16, 2, 4), (3, 0x16, 0, 0), (3, 0x02, 1, 0),
+        (4, 0x1F, 0, 0), (4, 0x0A, 0, 2), (5, 0x1E, 0, 0), (2, 0x02, 0, 1),
+    ]
+
+    def parser(self):
+        return cls_of("scsi_cdb_readcd", "ReadCd").unmarshall_datain
+
+    def cases(self, tier):
+        return [{"layout": i, "tl": tl} for i in range(len(self.LAYOUTS)) for tl in ((0, 2) if tier == "quick" else (0, 1, 2, 3))]
+
+    def case_id(self, case):
+        return "est=%d,mcsb=%02X,c2ei=%d,scsb=%d,tl=%d" % (self.LAYOUTS[case["layout"]] + (case["tl"],))
+
+    def kwargs(self, case):
+        est, mcsb, c2, sc = self.LAYOUTS[case["layout"]]
+        return {"lba": 16, "tl": case["tl"], "est": est, "mcsb": mcsb, "c2ei": c2, "scsb": sc}
+
+    def parts(self, case):
+        """[(result path, size, kind)] of one sector in wire order"""
+        est, mcsb, c2, sc = self.LAYOUTS[case["layout"]]
+        s = D.CD_SECTOR[est]
+        out = []
+        if mcsb & 0x10 and s["sync"]:
+            out.append(("sync", 12, "blob"))
+        if mcsb & 0x04 and s["header"]:
+            out.append(("sector-header", 4, "header"))
+        if mcsb & 0x08 and s["subheader"]:
+            out.append(("sector-subheader", 8, "subheader"))
+        if mcsb & 0x02:
+            out.append(("data", s["user"], "blob"))
+        if mcsb & 0x01 and s["edc"]:
+            out.append(("edc", 4, "blob"))
+            if s.get("zero"):
+                out.append((None, s["zero"], "skip"))
+            if s["ecc"]:
+                out.append(("p-parity", 172, "blob"))
+                out.append(("q-parity", 104, "blob"))
+        if c2 == 1:
+            out.append(("c2ei-data", 294, "blob"))
+        elif c2 == 2:
+            out.append(("c2ei.data", 296, "blob"))
+        if sc == 2:
+            out.append(("subchannel", 16, "q"))
+        elif sc in (1, 4):
+            out.append(("subchannel.data", 96, "blob"))
+        return out
+
+    def inputs(self, case):
+        n = sum(p[1] for p in self.parts(case))
+        return {"sectors": Bytes(n * case["tl"], mutable=False)}
+
+    def build(self, case, a):
+        cells = list(a.sectors)
+        exp = {}
+        pos = 0
+        for l in range(16, 16 + case["tl"]):
+            r = {}
+            for path, size, kind in self.parts(case):
+                chunk = cells[pos:pos + size]
+                pos += size
+                if kind == "skip":
+                    continue
+                if kind == "blob":
+                    v = _buf(chunk)
+                elif kind == "header":
+                    v = D.CD_SECTOR_HEADER.decode(chunk)
+                elif kind == "subheader":
+                    v = [{"file-number": chunk[o], "channel-number": chunk[o + 1], "sub-mode": chunk[o + 2], "data": _buf(chunk[o:o + 4])} for o in (0, 4)]
+                elif kind == "q":
+                    v = dict(D.SUBCHANNEL_Q.decode(chunk), data=_buf(chunk))
+                cur = r
+                parts = path.split(".")
+                for p in parts[:-1]:
+                    cur = cur.setdefault(p, {})
+                cur[parts[-1]] = v
+            exp[l] = r
+        return cells, exp
+
+
+for _u in (TransportIdDecode(), PRInFullStatusDecode(), ReadCdDecode()):
+    UNITS.append(register(_u))
